@@ -347,6 +347,15 @@ pub fn decode_with(planted: &[Planted], src: usize, dst: Option<usize>, bytes: &
 }
 
 impl Adversary {
+    pub fn new(cfg: NetCfg, planted: Vec<Planted>, fired: Rc<RefCell<BTreeMap<&'static str, u64>>>) -> Self {
+        Adversary {
+            cfg,
+            planted,
+            seen: BTreeMap::new(),
+            fired,
+        }
+    }
+
     fn fire(&self, k: &'static str) {
         *self.fired.borrow_mut().entry(k).or_default() += 1;
     }
